@@ -7,6 +7,7 @@ import (
 	"io"
 	"sync"
 	"time"
+	"unicode/utf8"
 
 	"github.com/jmsadair/raft/internal/numeric"
 	"github.com/jmsadair/raft/internal/random"
@@ -33,6 +34,10 @@ var (
 	// to be committed in the current term. The membership change may be submitted once a log entry
 	// has been committed this term.
 	ErrNoCommitThisTerm = errors.New("a log entry has not been committed in this term")
+
+	// ErrInvalidMember is returned when the ID or the address of a node is not usable: the
+	// empty ID is how a node records that it has not voted, and both are stored as text.
+	ErrInvalidMember = errors.New("the ID of a node must not be empty and its ID and address must be valid UTF-8")
 
 	// ErrNoVoters is returned when a membership change would leave the cluster without
 	// a voting member. Such a configuration could never be committed or changed again.
@@ -245,6 +250,10 @@ func NewRaft(
 	dataPath string,
 	opts ...Option,
 ) (*Raft, error) {
+	if !validMember(id, address) {
+		return nil, ErrInvalidMember
+	}
+
 	// Apply provided options.
 	var options options
 	for _, opt := range opts {
@@ -437,6 +446,11 @@ func (r *Raft) Bootstrap(configuration map[string]string) error {
 
 	if address, ok := configuration[r.id]; !ok || r.address != address {
 		return errors.New("configuration must contain this node")
+	}
+	for id, address := range configuration {
+		if !validMember(id, address) {
+			return ErrInvalidMember
+		}
 	}
 	if r.configuration != nil {
 		return fmt.Errorf(
@@ -644,6 +658,11 @@ func (r *Raft) AddServer(
 	defer r.mu.Unlock()
 
 	configurationFuture := newFuture[Configuration](timeout)
+
+	if !validMember(id, address) {
+		respond(configurationFuture.responseCh, Configuration{}, ErrInvalidMember)
+		return configurationFuture
+	}
 
 	// Only the leader can make membership changes.
 	if r.state != Leader {
@@ -2188,6 +2207,11 @@ func (r *Raft) becomeFollower(leaderID string, term uint64) {
 	r.operationManager = newOperationManager(r.options.leaseDuration)
 
 	r.logger.Infof("entered the follower state: term = %d", r.currentTerm)
+}
+
+// validMember returns true if the ID and the address can be those of a member of the cluster.
+func validMember(id string, address string) bool {
+	return id != "" && utf8.ValidString(id) && utf8.ValidString(address)
 }
 
 // cancelPendingConfiguration resolves the future of a membership change that is still pending
